@@ -32,6 +32,19 @@ def family(tier, rnd):
                 for hks in ([["match"]] if depth == 0 else [["none"] * depth + ["match"], ["match"] + ["none"] * depth, ["none"] * (depth - 1) + ["match", "nomatch"]]):
                     for he in (["ret", "noret"] if tier != "quick" or depth < 2 else ["ret"]):
                         P.append(chain_prog(depth, rk, sw, list(hks), he))
+    # across module boundaries: F1..Fd live in the main file or in module files (main -> 模甲 -> 模乙); raise and handlers anywhere
+    LV = {1: [[1]], 2: [[0, 1], [1, 1], [1, 2]], 3: [[0, 1, 2], [1, 1, 2], [1, 2, 2], [0, 0, 1]]}
+    for depth in (1, 2, 3):
+        for levels in LV[depth]:
+            for rk in ("thr", "idx", "div"):
+                for sw in ("plain", "initer", "call-arg", "iter-target"):
+                    combos = list(itertools.product(["none", "match"], repeat=depth + 1))
+                    combos = [c for c in combos if 1 <= sum(1 for x in c if x != "none") <= 2]
+                    if tier == "quick":
+                        combos = rnd.sample(combos, min(len(combos), 3))
+                    for hks in combos:
+                        for he in (["ret", "rethrow"] if tier != "quick" else [rnd.choice(["ret", "noret", "rethrow"])]):
+                            P.append(chain_prog(depth, rk, sw, list(hks), he, levels=levels))
     # special sites: constructor, handler block faulting, method on object with 其 of the caller, two handlers same class
     def add(tag, p):
         p["tag"] = tag; P.append(p)
@@ -68,8 +81,8 @@ def run(ctx):
                evaluations=stats["programs"], distinct_nontrivial=len(set(p["tag"] for p in progs)),
                rule="raise kind {抛出异常, 抛出 custom class, index out of range, division by zero} x raise depth 0..3 x site {plain, in 每当, in 遍历, in 如果; inside the target expression of 遍历, the condition of 每当 / 如果 / 再如, a call argument, a declaration, a list literal, an 输出 value} "
                     "x handler placement per frame {none, matching, non-matching, non-matching then matching} x handler ending {输出, none, raises again}, "
-                    "each followed by probes (caller local, second identical call, callee local must be undefined); plus constructor / handler-fault / "
+                    "each followed by probes (caller local, second identical call, callee local must be undefined); the same with the call chain crossing one or two module-file boundaries (main -> 模甲 -> 模乙, then a method of the main file must still be callable); plus constructor / handler-fault / "
                     "receiver-restoration / recursion programs. The ZnEval machine (TLC) gives the expected statement trace, call depth at every "
                     "statement, display trace and outcome; the real run must match event by event. distinct = distinct matrix cells",
                **stats)
-    return cov, ["message wording of built-in faults is not compared (any non-empty text)", "single module; cross-module raise sites are exercised by C15's family"]
+    return cov, ["message wording of built-in faults is not compared (any non-empty text)", "module files of the cross-module programs contain methods only (no module-level statements or types); custom exception types are raised in the main file only"]
